@@ -11,6 +11,8 @@
       <<"where", e, q, f, g>>                 where(e > q, f, g)     (e scalar; non-differentiable predicate)
       <<"cond", e, q, f, g>>                  lax.cond(e > q, f, g)  (either branch taken)
       <<"intfloor", e>>                       astype(int).astype(float) of a scalar: an integer intermediate (zero tangent)
+      <<"cond2mul", e, q, f1, f2, g1, g2>>    (a, b) = lax.cond(e > q, (f1, f2), (g1, g2)); a * b    (a cond with two outputs)
+      <<"switch3", e, f0, f1, f2>>            lax.switch(clip(int(e), 0, 2), [f0, f1, f2])
    Contract = Impl here: dual-number semantics (the standard JVP rules) evaluated exactly in rationals; the binding compares
    the real jvp_estimate / grad_estimate / estimate with these values (and with jax.jvp / jax.grad, the oracle the property names). *)
 EXTENDS Rational, Sequences, SequencesExt, FiniteSets, TLC, TLCExt, Json, IOUtils
@@ -62,6 +64,15 @@ Ev(e, X) ==      \* X: dual of the argument (for the pytree argument: [a |-> dua
     [] k = "matmul" -> LET a == Ev(e[2], X) b == Ev(e[3], X) IN [p |-> VMatMul(a.p, b.p), t |-> VAdd(VMatMul(a.t, b.p), VMatMul(a.p, b.t))]
     [] k \in {"where", "cond"} -> LET c == Ev(e[2], X) IN IF RLess(e[3], c.p.d) THEN Ev(e[4], X) ELSE Ev(e[5], X)
     [] k = "intfloor" -> LET a == Ev(e[2], X) IN [p |-> S(Trunc(a.p.d)), t |-> S(R(0))]
+    (* a cond whose branches return TWO values (a, b) = cond(e > q, (f1, f2), (g1, g2)), used as a * b *)
+    [] k = "cond2mul" -> LET c == Ev(e[2], X)
+                             a == IF RLess(e[3], c.p.d) THEN Ev(e[4], X) ELSE Ev(e[6], X)
+                             b == IF RLess(e[3], c.p.d) THEN Ev(e[5], X) ELSE Ev(e[7], X)
+                         IN [p |-> VMul(a.p, b.p), t |-> VAdd(VMul(a.t, b.p), VMul(a.p, b.t))]
+    (* lax.switch over three branches, index = clip(astype(int)(e), 0, 2) *)
+    [] k = "switch3" -> LET c == Trunc(Ev(e[2], X).p.d)
+                            i == IF RLess(c, R(1)) THEN 0 ELSE IF RLess(c, R(2)) THEN 1 ELSE 2
+                        IN Ev(e[3 + i], X)
     (* primitives whose differentiable operand is followed by integer operands (computed index, index array, integer bounds) *)
     [] k = "dynidx" -> LET a == Ev(e[2], X)
                            i == CHOOSE j \in DOMAIN a.p.d : (\A m \in DOMAIN a.p.d : ~RLess(a.p.d[j], a.p.d[m])) /\ (\A m \in 1..(j - 1) : RLess(a.p.d[m], a.p.d[j]))
@@ -82,6 +93,8 @@ Corpus == <<
   [n |-> "s_where",  ty |-> "s", e |-> <<"where", Xs, Q(1, 2), <<"sq", Xs>>, <<"mul", C(2, 1), Xs>>>>],
   [n |-> "s_cond",   ty |-> "s", e |-> <<"cond", Xs, Q(0, 1), <<"mul", Xs, Xs>>, <<"neg", Xs>>>>],
   [n |-> "s_int",    ty |-> "s", e |-> <<"mul", Xs, <<"intfloor", <<"add", Xs, C(2, 1)>>>>>>],
+  [n |-> "s_cond2",  ty |-> "s", e |-> <<"add", <<"cond2mul", Xs, Q(0, 1), <<"sq", Xs>>, <<"mul", C(3, 1), Xs>>, <<"neg", Xs>>, <<"pow3", Xs>>>>, Xs>>],
+  [n |-> "s_switch", ty |-> "s", e |-> <<"mul", <<"switch3", <<"add", Xs, C(1, 1)>>, <<"sq", Xs>>, <<"mul", C(2, 1), Xs>>, <<"pow3", Xs>>>>, Xs>>],
   [n |-> "s_clip",   ty |-> "s", e |-> <<"mul", <<"clip11", <<"mul", Xs, C(3, 4)>>>>, Xs>>],
   [n |-> "v_dynidx", ty |-> "v", e |-> <<"mul", <<"dynidx", Xs>>, <<"idx", Xs, 2>>>>],
   [n |-> "v_take",   ty |-> "v", e |-> <<"dot", <<"take21", Xs>>, <<"add", Xs, C(1, 1)>>>>],
